@@ -98,8 +98,14 @@ def h_numbering(V):
 def h_symbol_number(V, falsify=False):
     from chython.periodictable import Element
     import chython.periodictable as pt
+    # the number -> class table is a lazily filled process-wide cache: start every path from the empty cache and enter
+    # through the base class, an element class or an instance (all are legal ways to call the classmethod)
+    Element.__class_cache__.pop('elements', None)
+    via = V.choice('via', ['Element', 'class', 'instance'])
+    entry = {'Element': Element, 'class': pt.C, 'instance': pt.Fe()}[via]
     Z = V.int('Z', 1, 118)
-    cls = Element.from_atomic_number(Z)        # dict lookup: the solver enumerates Z
+    cls = entry.from_atomic_number(Z)        # dict lookup: the solver enumerates Z
+    V.prove(Element.from_atomic_number(int(Z)) is cls, 'lookup result does not depend on the entry point', {'via': via})
     z = int(Z)
     std = STANDARD[z - 1] if not falsify else STANDARD[z % 118]
     V.prove(cls.__name__ == std, 'number -> symbol agrees with the standard table', {'Z': z})
@@ -270,7 +276,40 @@ def h_matcher_bits(V, falsify=False, zlo=1, zhi=118):
     V.observe('Z', z)
 
 
+def h_matcher_isotopes(V, zlo=1, zhi=118):
+    """every tabulated isotope x radical state, as atom and as query: the compiled matcher (interpreted from the .pyx)
+    and the reference comparison agree, i.e. the isotope field of the bit layout holds every tabulated isotope"""
+    from checks.c09 import _both, _mk_mol, _mk_query
+    import chython.periodictable as pt
+    T = tables()
+    Z = V.int('Z', zlo, zhi)
+    z = int(Z)
+    name = T['info'][z]['name']
+    keys = sorted(T['info'][z]['dist'])
+    a = getattr(pt, name)()
+    a._neighbors = a._heteroatoms = 0
+    a._hybridization = 1
+    a._ring_sizes = set()
+    a._in_ring = False
+    a._implicit_hydrogens = 0
+    a._explicit_hydrogens = 0
+    ai = V.wint('a_iso', 0, 400)
+    V.assume(s_or(*[ai == k for k in keys]))
+    a._isotope = ai if V.bool('a_has_iso') else None
+    a._is_radical = V.bool('a_rad')
+    q = getattr(pt, 'Query' + name)()
+    qi = V.wint('q_iso', 0, 400)
+    V.assume(s_or(qi == 0, *[qi == k for k in keys]))
+    q._isotope = qi
+    q._is_radical = V.bool('q_rad')
+    fast, slow = _both(_mk_query({1: q}, {}), _mk_mol({1: a}, {}))
+    V.prove(fast == slow, 'every tabulated isotope is representable in the matcher layout (compiled = reference)',
+            {'Z': z, 'symbol': name, 'fast': fast, 'slow': slow})
+    V.observe('n', len(fast))
+
+
 HARNESSES = {
+    'matcher_isotopes': h_matcher_isotopes,
     'numbering': h_numbering, 'symbol_number': h_symbol_number, 'isotope_keys': h_isotope_keys,
     'reference_isotope': h_reference_isotope, 'codec_reference': h_codec_reference,
     'pack_representable': h_pack_representable, 'atomic_mass': h_atomic_mass, 'isotope_setter': h_isotope_setter,
@@ -281,7 +320,7 @@ HARNESSES = {
 def finding_key(job, failure):
     k = f"{job['harness']}:{failure['label']}"
     if 'Z' in failure['model'] and job['harness'] in ('reference_isotope', 'atomic_mass', 'matcher_bits',
-                                                      'symbol_number', 'valence_rules', 'isotope_setter'):
+                                                      'symbol_number', 'valence_rules', 'isotope_setter', 'matcher_isotopes'):
         k += f":Z={failure['model']['Z']}"
     return k
 
@@ -304,6 +343,8 @@ def jobs(tier):
          'max_failures': 1, 'validate': False},
     ]
     for lo in range(1, 119, 8):
+        J.append({'harness': 'matcher_isotopes', 'params': {'zlo': lo, 'zhi': min(118, lo + 7)}, 'budget_s': 900,
+                  'max_failures': 300, 'validate_every': 16})
         J.append({'harness': 'matcher_bits', 'params': {'zlo': lo, 'zhi': min(118, lo + 7)}, 'budget_s': 600,
                   'max_failures': 300, 'validate_every': 16})
     if tier == 'thorough':
